@@ -459,7 +459,8 @@ fn step(rng: &mut Rng, sink: &mut Sink, w: &mut World, focus: &str) {
                     let line = match k {
                         PendK::Exec => {
                             if rng.chance(1, 2) {
-                                format!("deliver {} ok -", id)
+                                // the destination contract may return values
+                                format!("deliver {} ok {}", id, rng.pick(&["-", "-", "aa", "aa,bbcc"]))
                             } else {
                                 format!("deliver {} fail", id)
                             }
